@@ -313,6 +313,9 @@ pub fn run_history(seed: u64, index: u64, knobs: &Knobs, out: &mut Out) {
         watch_slots: vec![],
         truncated: false,
         truncated_since_clear: false,
+        resync: false,
+        foreign_viols: 0,
+        tmp_recycled: false,
         closed: false,
     };
     h.log(format!("cfg {}", cfg.to_json().dump()));
